@@ -101,7 +101,7 @@ func runC08(e *Env) {
 	var desc string
 	var bounds []int
 	for i := 0; i < nFrames; i++ {
-		size := []int{6, 0, 1, 17, 255, 300, 1024}[e.P(7)]
+		size := []int{6, 0, 1, 17, 255, 300, 1024, 2, 3, 7}[e.P(10)]
 		if spec.Kind == fkFixed {
 			size = spec.Fixed
 		}
